@@ -7,6 +7,7 @@ import (
 // ErrEmptyIDTransfer CCTransfer errors.
 var (
 	ErrEmptyIDTransfer       = errors.New("id transfer is empty")
+	ErrInvalidIDTransfer     = errors.New("invalid argument id transfer")
 	ErrSaveNilTransfer       = errors.New("save nil transfer")
 	ErrNotFound              = errors.New("transfer not found")
 	ErrInvalidIDUser         = errors.New("invalid argument id user")
